@@ -324,10 +324,13 @@ def parse_kani_log(text):
     return r
 
 
-def kani_cmd(h, target_dir, extra):
+def kani_cmd(h, target_dir, playback):
+    """phase 1: terse output (kani-driver's 'regular' post-processing of ~10k checks costs ~100 s);
+    phase 2 (only after a failure): the same query with concrete playback printed"""
     cmd = ["cargo", "kani", "--harness", h.fullpath, "--exact", "-Z", "stubbing",
-           "-Z", "concrete-playback", "--concrete-playback=print", "--target-dir", target_dir]
-    cmd += extra
+           "--target-dir", target_dir, "--output-format", "terse"]
+    if playback:
+        cmd += ["-Z", "concrete-playback", "--concrete-playback=print"]
     cmd += [x for x in h.attrs.get("flags", "").split(",") if x]
     return cmd
 
@@ -338,7 +341,7 @@ def classify(h, res, rc, timed_out):
         return "inconclusive", f"timeout after {h.cap}s"
     if res["status"] is None:
         return "inconclusive", f"no verdict (exit {rc}): build error, OOM or solver crash"
-    if res["unwind_fail"]:
+    if res["unwind_fail"] or any("unwinding assertion" in c["desc"] for c in res["failed_checks"]):
         return "inconclusive", "unwinding assertion failed (bound too small)"
     if res["unsupported"]:
         return "inconclusive", "unsupported construct reachable: " + res["unsupported"][0]
@@ -348,7 +351,7 @@ def classify(h, res, rc, timed_out):
         return "holds", ""
     if res["status"] == "FAILED":
         if not res["failed_checks"]:
-            return "inconclusive", "FAILED without failed checks (solver error / OOM)"
+            return "inconclusive", "FAILED without failed checks (CBMC aborted: out of memory / solver error)"
         return "fails", "; ".join(sorted({c["desc"] for c in res["failed_checks"]}))
     return "inconclusive", "status " + str(res["status"])
 
@@ -504,9 +507,15 @@ def main(argv):
                 continue
             logp = os.path.join(logdir, h.name + ".log")
             cap = int(h.cap * a.capx)
-            rc, to, dt = run_cmd(kani_cmd(h, tdir, []), snap, ENV_BASE, cap, logp, h.mem_gb)
+            rc, to, dt = run_cmd(kani_cmd(h, tdir, False), snap, ENV_BASE, cap, logp, h.mem_gb)
             text = open(logp, errors="replace").read()
             res = parse_kani_log(text)
+            if res["status"] == "FAILED" and not to:
+                logp2 = os.path.join(logdir, h.name + ".playback.log")
+                rc2, to2, dt2 = run_cmd(kani_cmd(h, tdir, True), snap, ENV_BASE, cap * 2, logp2, h.mem_gb)
+                res2 = parse_kani_log(open(logp2, errors="replace").read())
+                res["playback"] = res2["playback"]
+                dt += dt2
             verdict, reason = classify(h, res, rc, to)
             if verdict == "inconclusive" and not to and res["status"] is None:
                 tail = [l for l in text.splitlines() if l.startswith("error")][:3]
